@@ -45,6 +45,8 @@ try:
         p = subprocess.run([os.path.join(V, "run_check.sh"), pid, a.tier], env=env, capture_output=True, text=True)
         lines = [l for l in p.stdout.splitlines() if l.startswith("VIOLATION") or l.startswith("  ")][:4]
         verdict = {0: "MISSED", 1: "CAUGHT", 2: "INCONCLUSIVE"}.get(p.returncode, "rc=%d" % p.returncode)
+        if p.returncode == 1 and not any(l.startswith("VIOLATION property=") for l in p.stdout.splitlines()):
+            verdict = "CRASHED(exit 1 without a VIOLATION line)"
         print("%-28s %s %s  (%.0fs)  %s" % (m["name"], pid, verdict, time.time() - t0, " | ".join(x.strip()[:300] for x in lines)))
         if p.returncode == 2:
             print(p.stderr[-1500:])
